@@ -54,6 +54,10 @@ func genSioTimers(t *rapid.T) SioTimerCase {
 			// "restartNow": at once, so that restored timers become due
 			// and fire in the new crew
 			kinds = []string{"restart", "restartNow"}
+		} else if rapid.IntRange(0, 14).Draw(t, l+".burst") == 0 {
+			// many timers pending at once (more than any small fixed
+			// capacity), then none
+			kinds = []string{"burst"}
 		}
 		op := STOp{Kind: rapid.SampledFrom(kinds).Draw(t, l+".k"), Id: rapid.SampledFrom([]string{"a", "b", "c"}).Draw(t, l+".id")}
 		switch op.Kind {
@@ -366,7 +370,14 @@ func (h *sioHarness) checkPending(where string) {
 func (h *sioHarness) checkPendingIn(where, what string, p map[string]bool) {
 	where = where + " (" + what + ")"
 	now := time.Now()
-	for _, id := range []string{"a", "b", "c"} {
+	ids := map[string]interface{}{"a": nil, "b": nil, "c": nil}
+	for id := range h.live {
+		ids[id] = nil
+	}
+	for id := range p {
+		ids[id] = nil
+	}
+	for _, id := range jsongen.SortedKeys(ids) {
 		inc := h.live[id]
 		if inc == nil {
 			if p[id] {
@@ -441,6 +452,14 @@ func checkSioTimers(c SioTimerCase) (v ev.Verdict) {
 					time.Sleep(time.Millisecond)
 				}
 				h.cancelTimer(op.Id)
+			}
+		case "burst":
+			for i := 0; i < 12; i++ {
+				h.make(STOp{Kind: "make", Id: fmt.Sprintf("t%d", i), DelayMs: 5000})
+			}
+			h.checkPending("in the burst")
+			for i := 0; i < 12 && h.bad == ""; i++ {
+				h.cancelTimer(fmt.Sprintf("t%d", i))
 			}
 		case "restartNow":
 			if _, known := ev.IsKnown("C17", "C17/sio/restart"); !known {
